@@ -493,6 +493,22 @@ type vfE2ECase struct {
 	H2     bool      `json:"h2"`
 	Method string    `json:"method"` // unary, client-stream, server-stream, bidi
 	Raw    vfRawResp `json:"raw"`
+	// Tail (client-stream, bidi): what follows the first request message, which prescribes the raw response: "" a
+	// well-formed second message; garbage: an envelope whose payload is not a message; truncated: an envelope that
+	// announces more bytes than are sent; compressed: an envelope flagged compressed although no encoding was agreed
+	Tail string `json:"tail,omitempty"`
+}
+
+func vfBrokenTail(kind string, wellFormed []byte) []byte {
+	switch kind {
+	case "garbage":
+		return []byte{0, 0, 0, 0, 3, 0xff, 0xff, 0xff}
+	case "truncated":
+		return []byte{0, 0, 0, 0, 10, 'a', 'b', 'c'}
+	case "compressed":
+		return []byte{1, 0, 0, 0, 3, 'a', 'b', 'c'}
+	}
+	return wellFormed
 }
 
 var (
@@ -547,13 +563,16 @@ func vfE2ECheck(c vfE2ECase) error {
 	case "client-stream":
 		path, ct = "ClientStream", "application/connect+proto"
 		body = append(vfEnvelope(&conformancev1.ClientStreamRequest{ResponseDefinition: &conformancev1.UnaryResponseDefinition{RawResponse: raw}}),
-			vfEnvelope(&conformancev1.ClientStreamRequest{RequestData: []byte("second")})...)
+			vfBrokenTail(c.Tail, vfEnvelope(&conformancev1.ClientStreamRequest{RequestData: []byte("second")}))...)
 	case "server-stream":
 		path, ct = "ServerStream", "application/connect+proto"
 		body = vfEnvelope(&conformancev1.ServerStreamRequest{ResponseDefinition: &conformancev1.StreamResponseDefinition{RawResponse: raw, ResponseData: [][]byte{[]byte("handler-data")}}})
 	default:
 		path, ct = "BidiStream", "application/connect+proto"
 		body = vfEnvelope(&conformancev1.BidiStreamRequest{ResponseDefinition: &conformancev1.StreamResponseDefinition{RawResponse: raw, ResponseData: [][]byte{[]byte("handler-data")}}})
+		if c.Tail != "" {
+			body = append(body, vfBrokenTail(c.Tail, nil)...)
+		}
 	}
 	url := fmt.Sprintf("http://%s/connectrpc.conformance.v1.ConformanceService/%s", vfSrvs[idx].addr, path)
 	req, _ := http.NewRequest(http.MethodPost, url, bytes.NewReader(body))
@@ -620,7 +639,7 @@ func TestVerifC17E2E(t *testing.T) {
 	verifkit.Run(t, "C17E2E", verifkit.Spec[vfE2ECase]{
 		Gen: func(t *rapid.T) vfE2ECase {
 			return vfE2ECase{H2: rapid.Bool().Draw(t, "h2"), Method: rapid.SampledFrom([]string{"unary", "unary", "client-stream", "server-stream", "bidi"}).Draw(t, "method"),
-				Raw: vfGenRawResp(t, true)}
+				Raw: vfGenRawResp(t, true), Tail: rapid.SampledFrom([]string{"", "", "", "garbage", "truncated", "compressed"}).Draw(t, "tail")}
 		},
 		Check: vfE2ECheck,
 		Classify: func(c vfE2ECase) ([]string, bool) {
@@ -634,7 +653,11 @@ func TestVerifC17E2E(t *testing.T) {
 			if c.H2 {
 				proto = "h2c"
 			}
-			return []string{proto, c.Method, "body:" + c.Raw.Body}, nt
+			cl := []string{proto, c.Method, "body:" + c.Raw.Body}
+			if c.Tail != "" && (c.Method == "client-stream" || c.Method == "bidi") {
+				cl = append(cl, "broken-tail:"+c.Tail)
+			}
+			return cl, nt
 		},
 	})
 }
